@@ -146,7 +146,12 @@ VARIANTS = [
     V("c08-sync-stop-leaves-timers", {"C08": "R3", "C14": "R3"}, edits=[
         (S, "        for state_id in list(self._after_events.keys()):\n            self._after_events[state_id].set()\n        self._after_events.clear()\n", "")]),
     V("c08-async-cancel-after-exit-actions", {"C08": "R1", "C03": "R3"}, edits=[
-        (B, "            await self._cancel_state_tasks(state)\n            await self._execute_actions(state.exit, trigger_event)\n", "            await self._execute_actions(state.exit, trigger_event)\n            await self._cancel_state_tasks(state)\n")]),
+        (B, "        for state in states_to_exit:\n            await self._cancel_state_tasks(state)\n        for state in states_to_exit:\n            pass\n            await self._execute_actions(state.exit, trigger_event)\n",
+            "        for state in states_to_exit:\n            pass\n            await self._execute_actions(state.exit, trigger_event)\n            await self._cancel_state_tasks(state)\n")]),
+    V("c08-async-cancel-per-state-again", {"C08": "R2", "C07": "R4"}, edits=[
+        (B, "        for state in states_to_exit:\n            await self._cancel_state_tasks(state)\n        for state in states_to_exit:\n            pass\n            await self._execute_actions(state.exit, trigger_event)\n",
+            "        for state in states_to_exit:\n            pass\n            await self._cancel_state_tasks(state)\n            await self._execute_actions(state.exit, trigger_event)\n")],
+      note="revert of the fix commit for the rollback over-arming defect"),
     V("c08-timer-event-not-transition-event", {"C08": "R2"}, edits=[
         (B, "                after_event = AfterEvent(type=t_def.event)\n", "                after_event = AfterEvent(type=f'after.{delay_ms}')\n")]),
     V("c08-timer-armed-twice", {"C08": "R2"}, edits=[
@@ -322,6 +327,29 @@ VARIANTS = [
         (B, "                        if t.forbidden:\n                            blocked = True\n                            break\n                        if _passes(t):\n                            eligible.append(t)\n", "                        if _passes(t):\n                            eligible.append(t)\n                        if t.forbidden:\n                            blocked = True\n                            break\n")]),
     V("c20-forbidden-does-not-stop-walk", {"C20": "R3"}, edits=[
         (B, "                if blocked:\n                    pass\n                    break\n", "")]),
+    # ------------------------------------------------------------------ rules added after the seeded changes
+    V("c02-memo-keyed-by-guard-name", {"C02": "R6"}, edits=[
+        (B, "            key = id(transition)\n", "            key = transition.guard_def.type if transition.guard_def else None\n")]),
+    V("c04-counter-counts-every-send", {"C04": "R7", "C13": "R2"}, edits=[
+        (I, "            if actor is self and self._processing:\n                self._raise_depth += 1\n", "            if self._processing:\n                self._raise_depth += 1\n")]),
+    V("c09-child-registered-after-start", {"C09": "R5"}, edits=[
+        (I, "            self._actors[actor_id] = child_interpreter\n            for plugin in self._plugins:\n                plugin.on_service_start(self, invocation)\n            pass\n            await child_interpreter.start()\n",
+            "            for plugin in self._plugins:\n                plugin.on_service_start(self, invocation)\n            pass\n            await child_interpreter.start()\n            self._actors[actor_id] = child_interpreter\n")]),
+    V("c10-region-prefix-without-dot", {"C10": "R6", "C01": "R8"}, edits=[
+        (B, "active_in_region = [d for d in self._active_state_nodes if self._is_descendant(d, region)]", "active_in_region = [d for d in self._active_state_nodes if d.id.startswith(region.id)]")]),
+    V("c03-domain-from-source-on-reenter", {"C03": "R7"}, edits=[
+        (B, "        if target_state == transition.source:\n            return parent\n", "        if target_state == transition.source or transition.reenter:\n            return parent\n")]),
+    V("c11-resolve-history-after-exit", {"C11": "R6"}, edits=[
+        (S, "            history_targets = self._resolve_history_target(target_state)\n            path_to_enter = []\n", "            path_to_enter = []\n"),
+        (S, "                for node in history_targets:\n", "                for node in self._resolve_history_target(target_state):\n")]),
+    V("c08-rollback-skips-still-active", {"C08": "R2", "C07": "R4"}, edits=[
+        (B, "                if node in states_to_exit:\n                    self._schedule_state_tasks(node)\n", "                if node in states_to_exit and node not in self._active_state_nodes:\n                    self._schedule_state_tasks(node)\n")]),
+    V("silent-memo-keyed-by-guard-object-identity", silent=["C02"], edits=[
+        (B, "            key = id(transition)\n", "            key = (id(transition), 0)\n")]),
+    V("silent-enqueue-helper", silent=["C10", "C14", "C04"], edits=[
+        (S, "        event_obj = self._prepare_event(event_or_type, **payload)\n        self._event_queue.append(event_obj)\n", "        event_obj = self._prepare_event(event_or_type, **payload)\n        self._enqueue(event_obj)\n"),
+        (S, "    def send_events(self, events", "    def _enqueue(self, event_obj) -> None:\n        self._event_queue.append(event_obj)\n\n    def send_events(self, events")],
+      note="enqueue moved into a private helper called from send()"),
     # ================================================================== must stay silent
     V("silent-normal-form", silent=ALL, edits=[], note="whole tree re-emitted by ast.unparse: formatting, comments and line numbers all change"),
     V("silent-rename-local", silent=["C01", "C03", "C05", "C09", "C10"], edits=[
